@@ -1055,6 +1055,34 @@ func main() {
 	dir := filepath.Join(run.Out, "db")
 	thorough := run.Thorough()
 
+	if os.Getenv("C14_LESS39") != "" {
+		wd := newWorld(run, filepath.Join(dir, "less39"), false)
+		rc := func(who int, p string, amt *big.Int) {
+			a, e := wd.runCase(&txCase{who: who, rcpt: []byte(types.AergoSystem), payload: []byte(p), amount: amt, typ: types.TxType_GOVERNANCE, label: "scenario"}, true)
+			fmt.Fprintln(os.Stderr, "LESS39:", p, a, e)
+		}
+		rc(0, `{"Name":"v1stake"}`, coins(10000))
+		rc(1, `{"Name":"v1stake"}`, coins(10000))
+		wd.blockNo += system.StakingDelay + 10
+		rc(0, `{"Name":"v1voteDAO","Args":["BPCOUNT","3"]}`, nil)
+		for i := 0; i < 100; i++ {
+			a, e := wd.runCase(&txCase{who: 1, rcpt: []byte(types.AergoSystem), payload: []byte(`{"Name":"v1voteDAO","Args":["BPCOUNT","`+strings.Repeat("0", 38)+`5"]}`), typ: types.TxType_GOVERNANCE, label: "scenario"}, false)
+			if e != "done" {
+				fmt.Fprintln(os.Stderr, "LESS39 try", i, a, e)
+			}
+		}
+		rc(1, `{"Name":"v1voteDAO","Args":["BPCOUNT","`+strings.Repeat("0", 38)+`5"]}`, nil)
+		{
+			scs, _ := statedb.GetSystemAccountState(wd.sdb.OpenNewStateDB(wd.sdb.GetRoot()))
+			vl, err := system.GetVoteResult(scs, []byte("BPCOUNT"), 100)
+			fmt.Fprintln(os.Stderr, "TALLY", err)
+			for _, v := range vl.Votes {
+				fmt.Fprintln(os.Stderr, "  ", string(v.Candidate), len(v.Candidate), v.GetAmountBigInt())
+			}
+		}
+		return
+	}
+
 	// ---- rune tables and JSON decoding of the model against the Go libraries
 	runeOps(run, rng)
 	jsonOps(run, rng, run.Pick(1500, 60000))
